@@ -63,10 +63,20 @@
 (* that is encrypting - never what the constructor was given (named        *)
 (* deviation CtorCaptured).  Concurrent decryptions over the shared        *)
 (* decrypter registry are module XmlEncConc.                               *)
+(*                                                                         *)
+(* Round 7 (fixes/XmlEnc-g.md) makes THE RECIPIENT'S RSA KEY PAIR a        *)
+(* dimension of the C10 round trip (field rsa of a case): what the          *)
+(* *rsa.PrivateKey handed to Decrypt holds (table RsaParts, until now a    *)
+(* C11 dimension judged for totality only) - every value that is a         *)
+(* complete working key must decrypt (family "rsakey", named deviation     *)
+(* UnwrapNeedsPrecomputed) - and the size of the modulus against the room  *)
+(* OAEP leaves for the session key, k - 2 hLen - 2 octets: roomy / exact   *)
+(* fit / one octet short per digest and block cipher (family "modulus",    *)
+(* named deviation OaepExactFitRefused, invariant RefusesUnwrappable).     *)
 (***************************************************************************)
 EXTENDS Integers, Sequences, FiniteSets, TLC, Json
 
-CONSTANTS Family,   \* "C10q" | "C10t" | "C11q" | "C11t" | "C11dev" | "C10dev" (refutation runs)
+CONSTANTS Family,   \* "C10q" | "C10t" | "C11q" | "C11t" | "C11dev" | "C10dev" | "C10dev7" (refutation runs)
           Dev       \* deviations of the implementation being predicted (cfg: Dev <- DevPinned)
 
 (****************************** algorithm table ****************************)
@@ -143,6 +153,13 @@ W3C(a) == CASE a = "aes128-cbc"    -> [mode |-> "cbc", cipher |-> "aes",  key |-
 \*                            what the CONSTRUCTOR was given (a closure over its argument, a copy made at construction) instead of
 \*                            the field of the value that is encrypting.  {} in every tree: pubkey.go:44, :69-72, :73-85, :93, :98 and
 \*                            the keyEncrypter closures (:190, :207, :224: e.DigestMethod.Hash() of the value handed in) read the fields.
+\* UnwrapNeedsPrecomputed     (round 7; no tree) pubkey.go:151-158 RSA.unwrapKey hands the caller's *rsa.PrivateKey to crypto/rsa, which
+\*                            decrypts with N, D when Precompute() was never called on the key.  TRUE: a key whose Precomputed.Dp /
+\*                            Dq / Qinv is nil is refused with an error - also the complete, working keys that were built from N, E, D
+\*                            and the primes and never precomputed (RsaParts(s).precomp = "none").
+\* OaepExactFitRefused        (round 7; no tree) pubkey.go:93 keyEncrypter -> rsa.EncryptOAEP refuses a session key of more than
+\*                            k - 2 hLen - 2 octets (k the octets of the modulus, hLen of the digest; RFC 8017 7.1.1).  TRUE: Encrypt
+\*                            also refuses the key that fills that room exactly (<= written for <).
 DevNone ==
   [StripOffByOne |-> FALSE, AcceptOversizePadding |-> FALSE, DesSingleKey |-> FALSE, DecIvFixed16 |-> FALSE,
    NoAlignCheck |-> FALSE, GcmPads |-> FALSE, GcmNonceShadowed |-> FALSE, GcmSealsZeros |-> FALSE,
@@ -150,7 +167,8 @@ DevNone ==
    DigestEmit |-> "w3c", DigestAccept |-> {"w3c"}, MgfFollowsDigest |-> FALSE, Oaep11NoMgf |-> FALSE,
    NoKeyCompletenessCheck |-> FALSE, Oaep11MgfIsDigest |-> FALSE, PrefixBound |-> {},
    AbsentDigestKeepsConfigured |-> FALSE, OaepParamsIgnored |-> FALSE, KeyRefusal |-> {}, ValidatesKey |-> FALSE,
-   UncheckedPrecomputed |-> FALSE, MgfErrorSlicesIdentifier |-> FALSE, RetrievalMethod |-> "ignored", CtorCaptured |-> {}]
+   UncheckedPrecomputed |-> FALSE, MgfErrorSlicesIdentifier |-> FALSE, RetrievalMethod |-> "ignored", CtorCaptured |-> {},
+   UnwrapNeedsPrecomputed |-> FALSE, OaepExactFitRefused |-> FALSE]
 DevPinned ==
   [StripOffByOne |-> TRUE, AcceptOversizePadding |-> TRUE, DesSingleKey |-> TRUE, DecIvFixed16 |-> TRUE,
    NoAlignCheck |-> TRUE, GcmPads |-> TRUE, GcmNonceShadowed |-> TRUE, GcmSealsZeros |-> TRUE,
@@ -158,7 +176,8 @@ DevPinned ==
    DigestEmit |-> "pkg", DigestAccept |-> {"pkg"}, MgfFollowsDigest |-> TRUE, Oaep11NoMgf |-> TRUE,
    NoKeyCompletenessCheck |-> TRUE, Oaep11MgfIsDigest |-> FALSE, PrefixBound |-> {},
    AbsentDigestKeepsConfigured |-> FALSE, OaepParamsIgnored |-> TRUE, KeyRefusal |-> {}, ValidatesKey |-> FALSE,
-   UncheckedPrecomputed |-> TRUE, MgfErrorSlicesIdentifier |-> FALSE, RetrievalMethod |-> "ignored", CtorCaptured |-> {}]
+   UncheckedPrecomputed |-> TRUE, MgfErrorSlicesIdentifier |-> FALSE, RetrievalMethod |-> "ignored", CtorCaptured |-> {},
+   UnwrapNeedsPrecomputed |-> FALSE, OaepExactFitRefused |-> FALSE]
 \* the tree with the patches of /verif/fixes/C10-*.patch, C11-*.patch, C11b-*.patch applied
 DevFixed ==
   [StripOffByOne |-> FALSE, AcceptOversizePadding |-> TRUE, DesSingleKey |-> FALSE, DecIvFixed16 |-> FALSE,
@@ -167,7 +186,8 @@ DevFixed ==
    DigestEmit |-> "w3c", DigestAccept |-> {"w3c", "pkg"}, MgfFollowsDigest |-> TRUE, Oaep11NoMgf |-> FALSE,
    NoKeyCompletenessCheck |-> FALSE, Oaep11MgfIsDigest |-> TRUE, PrefixBound |-> {},
    AbsentDigestKeepsConfigured |-> FALSE, OaepParamsIgnored |-> TRUE, KeyRefusal |-> {}, ValidatesKey |-> FALSE,
-   UncheckedPrecomputed |-> FALSE, MgfErrorSlicesIdentifier |-> FALSE, RetrievalMethod |-> "ignored", CtorCaptured |-> {}]
+   UncheckedPrecomputed |-> FALSE, MgfErrorSlicesIdentifier |-> FALSE, RetrievalMethod |-> "ignored", CtorCaptured |-> {},
+   UnwrapNeedsPrecomputed |-> FALSE, OaepExactFitRefused |-> FALSE]
 \* The deviations the required design is run with: none.  XmlEnc_C11dev.cfg replaces ReqDev by DevSeeded5 - the two
 \* behaviours of round 5 switched on - and TLC must then REFUTE Total (the check breaks when it does not): the two new
 \* dimensions are not vacuous.
@@ -176,6 +196,10 @@ DevSeeded5 == [DevNone EXCEPT !.MgfErrorSlicesIdentifier = TRUE, !.RetrievalMeth
 \* round 6: the xmlenc11 constructors folded into a helper whose key-wrapping closure uses the helper's argument
 \* (XmlEnc_C10dev.cfg, phase enc-deviation-refuted of the thorough tier: TLC must refute RoundTrip and WrapsAsAnnounced)
 DevSeeded6 == [DevNone EXCEPT !.CtorCaptured = {<<"OAEP_SHA256", "wrap-digest">>, <<"OAEP_SHA512", "wrap-digest">>}]
+\* round 7: the two behaviours along the dimensions "what the recipient's *rsa.PrivateKey holds" and "size of the modulus
+\* against the OAEP limit" (XmlEnc_C10dev7.cfg, phase rsakey-deviation-refuted of the thorough tier: TLC must refute
+\* ShapeRoundTrip and ExactFitRoundTrip)
+DevSeeded7 == [DevNone EXCEPT !.UnwrapNeedsPrecomputed = TRUE, !.OaepExactFitRefused = TRUE]
 
 (* implementation parameters under a deviation record d *)
 KeySize(d, a) == IF a = "tripledes-cbc" /\ d.DesSingleKey THEN 8 ELSE W3C(a).key
@@ -544,9 +568,23 @@ Oaep(kt) == kt \in {"rsa-oaep-mgf1p", "rsa-oaep11"}
 OptStd(kt) == [dm |-> IF Oaep(kt) THEN "named" ELSE "absent", mgf |-> IF kt = "rsa-oaep11" THEN "named" ELSE "absent",
                oaepp |-> "absent", ks |-> FALSE]
 StdMgf(kt, dm) == IF kt = "rsa-oaep11" THEN dm ELSE IF kt = "rsa-oaep-mgf1p" THEN "sha1" ELSE "none"
+\* rsa : the RECIPIENT'S RSA KEY PAIR (round 7; a key transport only) -
+\*   shape what the *rsa.PrivateKey handed to the package's Decrypt holds (table RsaParts; the certificate handed to Encrypt
+\*         is the matching one, the independent implementation holds the key in its own way: "std")
+\*   mod   the size of the modulus against the room OAEP leaves for the session key, k - 2 hLen - 2 octets (RFC 8017 7.1.1):
+\*         "roomy" the 2048-bit harness key pair "sp" | "fit" the session key of the block cipher fills the room exactly
+\*         (k = 2 hLen + 2 + key octets: 1296 bits for SHA-512 with AES-256, 464 bits for SHA-1 with AES-128) | "short" one
+\*         octet less: the session key cannot be wrapped.  Such a key pair is "m<octets>"; in a C10 case the certificate
+\*         name "sp" stands for the recipient's certificate, whichever key pair that is (RcptId).
+Rsa(shape, mod) == [shape |-> shape, mod |-> mod]
+StdRsa == Rsa("std", "roomy")
+HLen(h) == CASE h \in {"sha1", "ripemd160"} -> 20 [] h = "sha256" -> 32 [] h = "sha512" -> 64 [] OTHER -> 0
+FitBytes(x) == 2 * HLen(x.dm) + 2 + W3C(x.bc).key
+RcptBytes(x) == CASE x.rsa.mod = "fit" -> FitBytes(x) [] x.rsa.mod = "short" -> FitBytes(x) - 1 [] OTHER -> 256
+RcptId(x) == IF x.rsa.mod = "roomy" THEN "sp" ELSE "m" \o ToString(RcptBytes(x))
 Case(fam, a, k, n, nn, l, x) ==
   [fam |-> fam, bc |-> a, kt |-> k.kt, dm |-> k.dm, plen |-> n, nonce |-> nn, lex |-> l, ki |-> x,
-   mgfd |-> StdMgf(k.kt, k.dm), opt |-> OptStd(k.kt), kv |-> "std", enc |-> StdEnc(k.kt, k.dm, a)]
+   mgfd |-> StdMgf(k.kt, k.dm), opt |-> OptStd(k.kt), kv |-> "std", enc |-> StdEnc(k.kt, k.dm, a), rsa |-> StdRsa]
 C10Cases == { Case("base", a, k, n, nn, LexPkg, "sp") : a \in BCs, k \in KtCases, n \in 0..65, nn \in {"supplied", "generated"} }
 \* fam "lex": direction ref2pkg only.  The independent producer writes the same ciphertexts in every lexical form and
 \* with the key information conformant producers embed: the recipient's certificate, its X509IssuerSerial followed by
@@ -591,9 +629,24 @@ EncNonces == IF Thorough THEN {"supplied", "generated"} ELSE {"supplied"}
 EncVals == { Enc(k, sd, sb) : k \in Ctors, sd \in {"asis"} \cup Digests, sb \in {"asis"} \cup BCs }
 C10Enc == { [Case("enc", EncBc(e), [kt |-> CtorAlg(e.ctor), dm |-> EncDm(e)], n, nn, LexPkg, "sp") EXCEPT !.enc = e] :
             e \in EncVals, n \in EncLens, nn \in EncNonces }
-\* (Family "C10dev": XmlEnc_C10dev.cfg runs family "enc" alone with the deviation of round 6 switched on in the required design)
+\* fam "rsakey" (round 7): "decrypting what the package encrypted returns the plaintext" is said of the recipient's key, and
+\* a key is handed to the package as an *rsa.PrivateKey value: every row of table RsaParts x every RSA key transport.  The
+\* three directions; the shape is that of the value handed to the PACKAGE's Decrypt (self, ref2pkg).
+RkKts == { k \in KtCases : k.kt # "direct" }
+RkBcs == IF Thorough THEN {"aes128-cbc", "aes256-cbc", "aes128-gcm"} ELSE {"aes128-cbc"}
+C10Rk == { [Case("rsakey", a, k, 17, "supplied", LexPkg, "sp") EXCEPT !.rsa = Rsa(s, "roomy")] :
+           a \in RkBcs, k \in RkKts, s \in RsaShapes }
+\* fam "modulus" (round 7): the size of the recipient's modulus against the OAEP limit, per digest and block cipher (the
+\* size of the session key).  "roomy" is the control; "fit" runs the three directions; with "short" nobody can wrap the
+\* session key: the package's Encrypt only (it must refuse).
+ModKts == { k \in KtCases : Oaep(k.kt) }
+C10Mod == { [Case("modulus", a, k, 17, "supplied", LexPkg, "sp") EXCEPT !.rsa = Rsa("std", m)] :
+            a \in BCs, k \in ModKts, m \in {"roomy", "fit", "short"} }
+\* (Family "C10dev": XmlEnc_C10dev.cfg runs family "enc" alone with the deviation of round 6 switched on in the required design;
+\*  Family "C10dev7": XmlEnc_C10dev7.cfg runs families "rsakey" / "modulus" alone with the deviations of round 7 switched on)
 C10Set == IF Family = "C10dev" THEN { x \in C10Enc : x.enc.setbc \in {"asis", "aes128-cbc"} }
-          ELSE { x \in C10Cases : x.plen \in PLens(x.bc) } \cup C10Lex \cup C10Opt \cup C10Kv \cup C10Enc
+          ELSE IF Family = "C10dev7" THEN { x \in C10Rk : x.bc = "aes128-cbc" } \cup C10Mod
+          ELSE { x \in C10Cases : x.plen \in PLens(x.bc) } \cup C10Lex \cup C10Opt \cup C10Kv \cup C10Enc \cup C10Rk \cup C10Mod
 
 \* ---- C11: elements an attacker can build.  Built with W3C parameters unless said otherwise.
 \* data key "K" of length klen; genuine CBC body of n bytes whose final plaintext byte is p
@@ -857,16 +910,17 @@ C11DevSet == WithLex({ x \in F4g : x.via = "ek" /\ x.el.dm = Dm("sha256", "w3c")
 C11Set == IF Family = "C11dev" THEN C11DevSet
           ELSE WithLex(C11Base \cup C11New \cup C11Round5, LexPkg) \cup UNION { WithLex(LexBase, l) : l \in LexForms \ {LexPkg} }
 
-IsC10 == Family \in {"C10q", "C10t", "C10dev"}
+IsC10 == Family \in {"C10q", "C10t", "C10dev", "C10dev7"}
 \* the document the element handed to Decrypt stands in, as far as it holds EncryptedKey elements: document order
 RECURSIVE Pre(_), PreSeq(_)
 Pre(e) == <<e>> \o PreSeq(e.eks)
 PreSeq(sq) == IF sq = <<>> THEN <<>> ELSE Pre(Head(sq)) \o PreSeq(Tail(sq))
 DocEKs(x) == (IF x.el.em \in KTs THEN Pre(x.el) ELSE PreSeq(x.el.eks)) \o PreSeq(x.sibs)
 \* C10 families run in the three directions, or only independent implementation -> package
-ThreeWayCase(x) == x.fam \in {"base", "enc"} \/ (x.fam = "keyval" /\ x.kt = "direct")
-\* ... and family "enc" ends behind pkg2ref: it varies the package's encrypter only
-HasRef(x) == x.fam # "enc"
+ThreeWayCase(x) == x.fam \in {"base", "enc", "rsakey", "modulus"} \/ (x.fam = "keyval" /\ x.kt = "direct")
+\* ... and family "enc" ends behind pkg2ref: it varies the package's encrypter only; with a modulus one octet short there is
+\* nothing an independent producer could write
+HasRef(x) == x.fam # "enc" /\ x.rsa.mod # "short"
 
 (******************************** variables ********************************)
 VARIABLES impl,     \* "w3c" (required design) | "code" (prediction under Dev: the pinned tree) |
@@ -911,7 +965,7 @@ Init == /\ impl \in {"w3c", "code", "fixed"}
         \* tree is made once per case, in the package's form
         /\ (c.lex # LexPkg => impl # "code")
         \* the families of round 4 are predicted for the tree with the fixes only
-        /\ (c.fam \in {"opt", "keyval", "keyvalue", "ekopt", "ekmgf", "keyinfo", "enc"} => impl # "code")
+        /\ (c.fam \in {"opt", "keyval", "keyvalue", "ekopt", "ekmgf", "keyinfo", "enc", "rsakey", "modulus"} => impl # "code")
         /\ (~IsC10 /\ c.key.t = "rsa" /\ (c.key.shape \in NewShapes \/ c.key.id = "mp3") => impl # "code")
         /\ buf = NoBuf /\ ret = NoRet /\ elP = NoEl /\ elR = NoEl
         /\ out = [self |-> NoOut, pkg2ref |-> NoOut, ref2pkg |-> NoOut, dec |-> NoOut]
@@ -935,9 +989,9 @@ EncMgf(d) == IF c.kt = "rsa-oaep-mgf1p" THEN (IF d.MgfFollowsDigest THEN EncHash
 EncEK(d) ==
   LET payload == BytesV(kv.len, "K", kv.shape)
       dmel == PDm(d, "dm-element") IN
-  [El(c.kt, "ok", 256,
-      IF c.kt = "rsa-1_5" THEN Wrap("pkcs1", "none", "none", "sp", payload)
-                          ELSE [Wrap("oaep", EncHash(d), EncMgf(d), "sp", payload)
+  [El(c.kt, "ok", RcptBytes(c),
+      IF c.kt = "rsa-1_5" THEN Wrap("pkcs1", "none", "none", RcptId(c), payload)
+                          ELSE [Wrap("oaep", EncHash(d), EncMgf(d), RcptId(c), payload)
                                   EXCEPT !.label = IF ByRef /\ c.opt.oaepp = "label" THEN "L" ELSE "none"],
       \* pubkey.go:69-72  if e.DigestMethod != nil: also under rsa-1_5 when the field of a PKCS1v15() value has been assigned
       IF ByRef THEN (IF c.kt = "rsa-1_5" \/ c.opt.dm = "absent" THEN NoDm ELSE Dm(c.dm, d.DigestEmit))
@@ -966,6 +1020,10 @@ EncResult(d) ==
   \* announced, Encrypt refuses (before the key is wrapped)
   IF ~ByRef /\ c.kt = "rsa-oaep11" /\ ~d.Oaep11NoMgf /\ PDm(d, "mgf-element") \notin MgfDigests
     THEN [k |-> "error", why |-> "MgfNotNameable", el |-> NoEl]
+  \* pubkey.go:93  keyEncrypter -> rsa.EncryptOAEP (the independent producer: RFC 8017 7.1.1 step 1.b): a session key longer
+  \* than k - 2 hLen - 2 octets cannot be wrapped - one that fills the room exactly can
+  ELSE IF Oaep(c.kt) /\ LET room == RcptBytes(c) - 2 * HLen(EncHash(d)) - 2 IN kv.len > room \/ (d.OaepExactFitRefused /\ kv.len = room)
+    THEN [k |-> "error", why |-> "MessageTooLong", el |-> NoEl]
   ELSE IF kv.len # KeySize(d, a) THEN [k |-> "error", why |-> "KeyLength", el |-> NoEl]
   \* cbc.go:44 / gcm.go:46  block, err := e.cipher(key)
   ELSE IF Refuses(d, a, kv.shape) THEN [k |-> "error", why |-> "CipherKey", el |-> NoEl]
@@ -984,20 +1042,23 @@ EncResult(d) ==
                             IF d.GcmSealsZeros THEN "zeros" ELSE "p", d.GcmPads, "none"))]
 
 \* the key handed to Decrypt for a C10 case
-C10Key == IF c.kt = "direct" THEN KeyShape("bytes", W3C(c.bc).key, "K", c.kv) ELSE SpKey
+\* (a key transport: the recipient's key pair; the package is handed the *rsa.PrivateKey value of the case, the
+\* independent implementation - phase pkg2ref - holds the same key in its own way)
+C10KeyIn(ph) == IF c.kt = "direct" THEN KeyShape("bytes", W3C(c.bc).key, "K", c.kv)
+                ELSE KeyShape("rsa", RcptBytes(c), RcptId(c), IF ph = "pkg2ref" THEN "std" ELSE c.rsa.shape)
 
 EncBlock ==
   /\ pc = "EncBlock"
   /\ LET r == EncResult(ED) IN
      IF phase = "encP"
        THEN IF r.k = "ok"
-              THEN /\ elP' = r.el /\ phase' = "self" /\ pc' = "FindMethod" /\ frames' = <<r.el>> /\ kv' = C10Key
+              THEN /\ elP' = r.el /\ phase' = "self" /\ pc' = "FindMethod" /\ frames' = <<r.el>> /\ kv' = C10KeyIn("self")
                    /\ UNCHANGED <<elR, out>>
               ELSE /\ out' = [out EXCEPT !.self = [k |-> r.k, why |-> "Encrypt:" \o r.why, nondet |-> FALSE],
                                          !.pkg2ref = [k |-> r.k, why |-> "Encrypt:" \o r.why, nondet |-> FALSE]]
                    /\ phase' = (IF HasRef(c) THEN "encR" ELSE "done") /\ pc' = (IF HasRef(c) THEN "EncKey" ELSE "done")
                    /\ UNCHANGED <<elP, elR, frames, kv>>
-       ELSE /\ elR' = r.el /\ phase' = "ref2pkg" /\ pc' = "FindMethod" /\ frames' = <<r.el>> /\ kv' = C10Key
+       ELSE /\ elR' = r.el /\ phase' = "ref2pkg" /\ pc' = "FindMethod" /\ frames' = <<r.el>> /\ kv' = C10KeyIn("ref2pkg")
             /\ UNCHANGED <<elP, out>>
   /\ UNCHANGED <<impl, c, buf, ret>>
 
@@ -1062,7 +1123,7 @@ Return ==
                        ELSE [k |-> ret.k, why |-> ret.why, nondet |-> ret.nondet] IN
             /\ ret' = NoRet /\ buf' = NoBuf
             /\ CASE phase = "self"    -> /\ out' = [out EXCEPT !.self = o] /\ phase' = "pkg2ref" /\ pc' = "FindMethod"
-                                         /\ frames' = <<elP>> /\ kv' = C10Key /\ UNCHANGED <<elP, elR>>
+                                         /\ frames' = <<elP>> /\ kv' = C10KeyIn("pkg2ref") /\ UNCHANGED <<elP, elR>>
                  [] phase = "pkg2ref" -> /\ out' = [out EXCEPT !.pkg2ref = o]
                                          /\ phase' = (IF HasRef(c) THEN "encR" ELSE "done") /\ pc' = (IF HasRef(c) THEN "EncKey" ELSE "done")
                                          /\ frames' = <<>> /\ UNCHANGED <<kv, elP, elR>>
@@ -1101,7 +1162,8 @@ RsaCert == /\ pc = "RsaCert"
                      [] OTHER ->
                         \* rsaKey.N.Cmp(pubKey.N) on a nil key / nil modulus (reachable only with NoKeyCompletenessCheck)
                         IF RsaParts(kv.shape).ptr = "nil" \/ RsaParts(kv.shape).n = "nil" THEN Fail("panic", "NilKeyDereference")
-                        ELSE IF crt.n # PubN(kv) THEN Fail("error", "CertificateMismatch")      \* modulus clause
+                        \* (in a C10 case the certificate "sp" is the recipient's, whichever key pair that is)
+                        ELSE IF (IF IsC10 /\ crt.n = "sp" THEN RcptId(c) ELSE crt.n) # PubN(kv) THEN Fail("error", "CertificateMismatch")      \* modulus clause
                         ELSE IF crt.e # PubE(kv) THEN Fail("error", "CertificateMismatch")      \* exponent clause
                         ELSE Goto("RsaCipherText")
 \* decrypt.go:116-118  else if ./KeyInfo/X509Data/X509IssuerSerial: reached only without an X509Certificate; the branch
@@ -1167,6 +1229,8 @@ RsaUnwrap ==
               THEN /\ ret' = [k |-> "panic", why |-> "NilCrtValueDereference", val |-> Bytes(0, "X"), nondet |-> TRUE]
                    /\ pc' = "Return" /\ UNCHANGED <<frames, kv, buf>> /\ Same
               ELSE Fail("panic", "NilCrtValueDereference")
+       \* (no tree) a key that was never precomputed is refused before crypto/rsa sees it
+       [] rk.ptr = "ok" /\ rk.n = "ok" /\ rk.d # "nil" /\ rk.precomp = "none" /\ DD.UnwrapNeedsPrecomputed -> Fail("error", "RsaDecryption")
        [] OTHER -> IF ok THEN Yield(w.payload, FALSE) ELSE Fail("error", "RsaDecryption")
 
 \* ---- block ciphers (cbc.go:100-130, gcm.go:102-130)
@@ -1260,13 +1324,30 @@ Required == impl = "w3c"      \* the run of the required design
 \* for every constructor and every assignment.  Left open: xmlenc11 rsa-oaep with RIPEMD-160 - XML-Enc 1.1 has no MGF1
 \* identifier for it, the combination cannot be announced and is not among the listed ones (the tree with the fixes refuses
 \* to encrypt).
-C10ClassOf(x) == IF x.opt.oaepp = "label" \/ (x.kt = "rsa-oaep11" /\ (x.mgfd # x.dm \/ x.dm \notin MgfDigests)) THEN "DontCare" ELSE "MustAccept"
+\* "Decrypting what the package encrypted" is said of the recipient's key: the key pair whose certificate Encrypt was given.
+\* The package takes that key as an *rsa.PrivateKey VALUE (x.rsa.shape, table RsaParts).  A value that is a complete, working
+\* key of the recipient - a modulus, the right private exponent, Precomputed either as Precompute() leaves it or never
+\* filled in: crypto/rsa decrypts with each of them (set Working) - is "the key": MustAccept under every key transport,
+\* whatever else it holds in Primes / CRTValues.  A value that lacks the modulus or the exponent, has a wrong exponent or a
+\* Precomputed with values removed is not a working key: nothing to decrypt with (DontCare here; totality is C11's).
+\* "Every key of the right size" of an RSA key transport: the modulus must leave room for the session key.  OAEP leaves
+\* k - 2 hLen - 2 octets (RFC 8017 7.1.1): a modulus in which the session key of the block cipher fits EXACTLY is a key of
+\* the right size (MustAccept, x.rsa.mod = "fit"); with one octet less the session key cannot be wrapped by anyone: the
+\* package must not hand out an element then - Encrypt returns an error, whichever (class MustReject, x.rsa.mod = "short").
+C10ClassOf(x) == IF x.rsa.mod = "short" THEN "MustReject"
+                 ELSE IF x.opt.oaepp = "label" \/ (x.kt = "rsa-oaep11" /\ (x.mgfd # x.dm \/ x.dm \notin MgfDigests))
+                         \/ x.rsa.shape \notin Working THEN "DontCare" ELSE "MustAccept"
 C10Class == C10ClassOf(c)
 \* families "lex" / "opt" (and "keyval" with a key transport) exercise the direction independent implementation -> package only
 ThreeWay == ThreeWayCase(c)
 RoundTrip == Done /\ IsC10 /\ Required /\ C10Class = "MustAccept"
                => /\ (HasRef(c) => out.ref2pkg.k = "plaintext")
                   /\ (ThreeWay => out.self.k = "plaintext" /\ out.pkg2ref.k = "plaintext")
+\* RoundTrip along the two dimensions of round 7, each on its own (XmlEnc_C10dev7.cfg must refute both)
+ShapeRoundTrip == c.fam = "rsakey" => RoundTrip
+ExactFitRoundTrip == c.fam = "modulus" => RoundTrip
+\* a session key that does not fit the recipient's modulus: Encrypt returns an error, no element leaves the package
+RefusesUnwrappable == Done /\ IsC10 /\ Required /\ C10Class = "MustReject" => out.self.k = "error" /\ out.pkg2ref.k = "error" /\ elP = NoEl
 \* "the xmlenc package offers": Encrypt is a method of a value; what it encrypts with is what the fields of THAT value say
 \* when it is called - no site reads what the constructor was given
 FieldsGovern == Required => D.CtorCaptured = {}
@@ -1390,7 +1471,9 @@ TypeOK == /\ impl \in {"w3c", "code", "fixed"}
           /\ \A f \in {"self", "pkg2ref", "ref2pkg", "dec"} : out[f].k \in {"none", "plaintext", "wrongtext", "error", "panic"}
           /\ Len(frames) <= 4
           \* the combination of a C10 case is the one the fields of its encrypter value name
-          /\ (IsC10 => /\ c.kt = CtorAlg(c.enc.ctor)
+          /\ (IsC10 => /\ c.rsa.shape \in RsaShapes /\ c.rsa.mod \in {"roomy", "fit", "short"}
+                        /\ (c.rsa # StdRsa => c.kt # "direct") /\ (c.rsa.mod # "roomy" => Oaep(c.kt))
+                        /\ c.kt = CtorAlg(c.enc.ctor)
                         /\ (c.kt # "direct" => c.bc = EncBc(c.enc) /\ c.dm = EncDm(c.enc))
                         /\ (c.kt = "direct" => c.enc = NoEnc))
           \* KeyInfo as a sequence of items is the eks / cert of the element in some order, plus references and names
@@ -1402,7 +1485,10 @@ OneOutcome == Done => IF IsC10 THEN /\ (HasRef(c) <=> out.ref2pkg.k # "none")
                                 ELSE out.dec.k # "none"
 
 (***************************** vector emission *****************************)
-EmitC10 == PrintT(<<"VEC", ToJson([prop |-> "C10", model |-> impl, case |-> c, class |-> C10Class, req |-> "plaintext",
+EmitC10 == PrintT(<<"VEC", ToJson([prop |-> "C10", model |-> impl, case |-> c, class |-> C10Class,
+                                   req |-> IF C10Class = "MustReject" THEN "error" ELSE "plaintext",
+                                   rcpt |-> [id |-> RcptId(c), octets |-> RcptBytes(c), parts |-> RsaParts(c.rsa.shape),
+                                             working |-> c.rsa.shape \in Working],
                                    cvlen |-> CvLen(c), closure |-> Closure(D, c),
                                    uris |-> [bc |-> Uri(c.bc), kt |-> Uri(c.kt)],
                                    refel |-> elR, pkgel |-> elP, x509 |-> <<X509("absent"), X509(c.ki)>>,
